@@ -57,6 +57,19 @@ SIGNALS = [1, 2, 3, 4, 5, 6, 7, 8, 9, 10, 11, 12, 13, 14, 15, 16, 24, 25, 26, 27
 # events: ["spawn", pid] ["exit", pid, st] ["chld"] ["reg", sid, label] ["wait", sid, label, re] ["loop"]
 
 
+
+def _default_signals():
+    """Children must die from the signal the case sends even when this process inherited ignored
+    signals (e.g. it was started under nohup, which ignores SIGHUP)."""
+    import signal as _sg
+    for n in range(1, 32):
+        if n in (_sg.SIGKILL, _sg.SIGSTOP):
+            continue
+        try:
+            _sg.signal(n, _sg.SIG_DFL)
+        except (OSError, ValueError, RuntimeError):
+            pass
+
 def real_events(case):
     """The event list that the 'real' script realises (pids are symbolic: 100+i)."""
     ch = case["real"]
@@ -351,7 +364,7 @@ def run_real(case):
                     script = "read x; exit %d" % c["code"]
                 else:
                     script = "ulimit -c 0; read x; kill -%d $$; sleep 5" % c["code"]
-                rec.objs.append(tp.Subprocess(["/bin/sh", "-c", script], stdin=_subprocess.PIPE))
+                rec.objs.append(tp.Subprocess(["/bin/sh", "-c", script], stdin=_subprocess.PIPE, preexec_fn=_default_signals))
                 rec.sub_futs.append([])
 
             def reg(i):
